@@ -442,13 +442,20 @@ state invariant `I` that (a) makes each per-item helper panic-free and (b) is pr
 concrete well-formed state are `np_addToESDTBalance`, `np_addNFTToDestination`, `np_transferOne`. -/
 
 structure ItemsSafe (env : Env) (c : Call) (I : Accts → Prop) : Prop where
-  one_np : ∀ l dst tok n q v ctx, I ctx.accts → NP (transferOne env c l dst tok n q v) ctx
-  one_inv : ∀ l dst tok n q v ctx, I ctx.accts → Post (transferOne env c l dst tok n q v) ctx (fun _ c' => I c'.accts)
-  dest_np : ∀ t tk mv ctx, I ctx.accts → t.value.isSome = true → t.md.isSome = true →
-    NP (addNFTToDestination env c.rcv t tk mv c.rae) ctx
-  dest_inv : ∀ t tk mv ctx, I ctx.accts → Post (addNFTToDestination env c.rcv t tk mv c.rae) ctx (fun _ c' => I c'.accts)
-  bal_np : ∀ k d ctx, I ctx.accts → NP (addToESDTBalance c.rcv k d c.rae) ctx
-  bal_inv : ∀ k d ctx, I ctx.accts → Post (addToESDTBalance c.rcv k d c.rae) ctx (fun _ c' => I c'.accts)
+  one_np : ∀ l dst tok n q v ctx, dst ≠ c.caller → c.args[0]? = some dst → I ctx.accts →
+    NP (transferOne env c l dst tok n q v) ctx
+  one_inv : ∀ l dst tok n q v ctx, dst ≠ c.caller → c.args[0]? = some dst → I ctx.accts →
+    Post (transferOne env c l dst tok n q v) ctx (fun _ c' => I c'.accts)
+
+/-- the destination side's helpers -/
+structure DestItemsSafe (env : Env) (c : Call) (I : Accts → Prop) : Prop where
+  dest_np : ∀ t tok mv ctx, I ctx.accts → t.value.isSome = true → t.md.isSome = true →
+    NP (addNFTToDestination env c.rcv t (esdtKeyPrefix ++ tok) mv c.rae) ctx
+  dest_inv : ∀ t tok mv ctx, I ctx.accts → (∃ b, decToken b = some t) →
+    Post (addNFTToDestination env c.rcv t (esdtKeyPrefix ++ tok) mv c.rae) ctx (fun _ c' => I c'.accts)
+  bal_np : ∀ tok d ctx, I ctx.accts → NP (addToESDTBalance c.rcv (esdtKeyPrefix ++ tok) d c.rae) ctx
+  bal_inv : ∀ tok d ctx, I ctx.accts →
+    Post (addToESDTBalance c.rcv (esdtKeyPrefix ++ tok) d c.rae) ctx (fun _ c' => I c'.accts)
 
 theorem post_transferOne_value (env : Env) (c : Call) (l : Bool) (dst tok : Bytes) (n q : Nat) (v : Bool) (ctx : Ctx) :
     Post (transferOne env c l dst tok n q v) ctx (fun t _ => t.value.isSome = true) := by
@@ -459,7 +466,7 @@ theorem post_transferOne_value (env : Env) (c : Call) (l : Bool) (dst tok : Byte
   · obtain ⟨_, _, _, _, _, e, _⟩ := ht rfl; rw [e]; rfl
 
 theorem post_multiSenderLoop (env : Env) (c : Call) (l : Bool) (dst : Bytes) (v : Bool) (I : Accts → Prop)
-    (hI : ItemsSafe env c I) :
+    (hI : ItemsSafe env c I) (hd1 : dst ≠ c.caller) (hd2 : c.args[0]? = some dst) :
     ∀ n idx ctx, I ctx.accts → Post (multiSenderLoop env c l dst v n idx) ctx
       (fun r c' => I c'.accts ∧ ∀ p ∈ r.1, p.2.value.isSome = true) := by
   intro n
@@ -469,7 +476,7 @@ theorem post_multiSenderLoop (env : Env) (c : Call) (l : Bool) (dst : Bytes) (v 
     intro idx ctx h
     unfold multiSenderLoop
     xsteps
-    apply Post.mono (Post.and (hI.one_inv _ _ _ _ _ _ _ h) (post_transferOne_value _ _ _ _ _ _ _ _ _))
+    apply Post.mono (Post.and (hI.one_inv _ _ _ _ _ _ _ hd1 hd2 h) (post_transferOne_value _ _ _ _ _ _ _ _ _))
     intro t c1 ⟨h1, ht⟩
     xsteps
     apply Post.mono (ih _ _ h1)
@@ -484,7 +491,7 @@ theorem post_multiSenderLoop (env : Env) (c : Call) (l : Bool) (dst : Bytes) (v 
     · exact hr p hp
 
 theorem np_multiSenderLoop (env : Env) (c : Call) (l : Bool) (dst : Bytes) (v : Bool) (I : Accts → Prop)
-    (hI : ItemsSafe env c I) :
+    (hI : ItemsSafe env c I) (hd1 : dst ≠ c.caller) (hd2 : c.args[0]? = some dst) :
     ∀ n idx ctx, I ctx.accts → idx + 3 * n ≤ c.args.length → NP (multiSenderLoop env c l dst v n idx) ctx := by
   intro n
   induction n with
@@ -493,8 +500,8 @@ theorem np_multiSenderLoop (env : Env) (c : Call) (l : Bool) (dst : Bytes) (v : 
     intro idx ctx h hb
     unfold multiSenderLoop
     npg
-    apply NP.bind_of (hI.one_np _ _ _ _ _ _ _ h)
-    apply Post.mono (hI.one_inv _ _ _ _ _ _ _ h)
+    apply NP.bind_of (hI.one_np _ _ _ _ _ _ _ hd1 hd2 h)
+    apply Post.mono (hI.one_inv _ _ _ _ _ _ _ hd1 hd2 h)
     intro _ c1 h1
     apply NP.bind_any (ih _ _ h1 (by omega)); intro r _
     obtain ⟨ts, logs⟩ := r
@@ -527,7 +534,8 @@ theorem np_multiTransferSender (env : Env) (c : Call) (ctx : Ctx) (I : Accts →
   unfold multiTransferSender
   simp only [hpres, Bool.not_true, Bool.false_eq_true, if_false]
   npg
-  rename_i dst _ _ _ _ a1 _ _ hn hmin _
+  rename_i dst hd2 _ hneq _ a1 _ _ hn hmin _
+  have hd1 : dst ≠ c.caller := of_decide_eq_false hneq
   have hb : 2 + 3 * u64 (beNat a1) ≤ c.args.length := by
     have h1 : ¬ (u64 (beNat a1) > c.args.length / 3) := of_decide_eq_false hn
     have h2 : ¬ (c.args.length < u64 (u64 (u64 (beNat a1) * 3) + 2)) := of_decide_eq_false hmin
@@ -537,8 +545,8 @@ theorem np_multiTransferSender (env : Env) (c : Call) (ctx : Ctx) (I : Accts →
     | npg_step
     | (apply NP.bind_ro (np_loadAcct _) ro_loadAcct; intro _ c1 hc1
        have h0 : I c1.accts := by rw [hc1]; exact h0)
-    | (apply NP.bind_of (np_multiSenderLoop env c _ dst _ I hI _ _ _ (by assumption) (by omega))
-       apply Post.mono (post_multiSenderLoop env c _ dst _ I hI _ _ _ (by assumption))
+    | (apply NP.bind_of (np_multiSenderLoop env c _ dst _ I hI hd1 hd2 _ _ _ (by assumption) (by omega))
+       apply Post.mono (post_multiSenderLoop env c _ dst _ I hI hd1 hd2 _ _ _ (by assumption))
        intro r _ ⟨_, hvals⟩)
     | (apply NP.bind_any (np_multiPayloadLoop env _ _ _ (by assumption)); intro _ _)
     | np_step
@@ -548,7 +556,7 @@ end Esdt
 
 namespace Esdt
 
-theorem np_multiDestLoop (env : Env) (c : Call) (m : Nat) (I : Accts → Prop) (hI : ItemsSafe env c I)
+theorem np_multiDestLoop (env : Env) (c : Call) (m : Nat) (I : Accts → Prop) (hI : DestItemsSafe env c I)
     (hP : ∀ b ∈ c.args, PayloadOK b) :
     ∀ n idx ctx, I ctx.accts → idx + 3 * n ≤ c.args.length → NP (multiDestLoop env c m n idx) ctx := by
   intro n
@@ -566,7 +574,7 @@ theorem np_multiDestLoop (env : Env) (c : Call) (m : Nat) (I : Accts → Prop) (
       obtain ⟨hv, hmd⟩ := hP a2 (List.mem_of_getElem? ha2) t hdec
       have h1' : I c1.accts := by rw [h1]; exact h
       apply NP.bind_of (hI.dest_np _ _ _ _ h1' hv hmd)
-      apply Post.mono (hI.dest_inv _ _ _ _ h1')
+      apply Post.mono (hI.dest_inv _ _ _ _ h1' ⟨_, hdec⟩)
       intro _ c2 h2
       npg
       apply NP.bind_any (ih _ _ h2 (by omega)); intro _ _
@@ -581,7 +589,8 @@ theorem np_multiDestLoop (env : Env) (c : Call) (m : Nat) (I : Accts → Prop) (
       np
 
 /-- MultiESDTNFTTransfer, relative to a state invariant for the per-item helpers: no index, count or allocation panic -/
-theorem np_multiTransfer (env : Env) (c : Call) (ctx : Ctx) (I : Accts → Prop) (hI : ItemsSafe env c I)
+theorem np_multiTransfer (env : Env) (c : Call) (ctx : Ctx) (I : Accts → Prop)
+    (hI : c.caller = c.rcv → ItemsSafe env c I) (hD : c.caller ≠ c.rcv → DestItemsSafe env c I)
     (h0 : I ctx.accts) (hphys : c.args.length < two63)
     (hreach : c.caller = c.rcv → present env.nshards env.self c.caller = true)
     (hP : c.caller ≠ c.rcv → ∀ b ∈ c.args, PayloadOK b) :
@@ -591,7 +600,7 @@ theorem np_multiTransfer (env : Env) (c : Call) (ctx : Ctx) (I : Accts → Prop)
   have hlen : 4 ≤ c.args.length := by np_bound
   by_cases hself : c.caller = c.rcv
   · simp only [hself, if_true]
-    have := np_multiTransferSender env c ctx I hI h0 hlen hphys (hreach hself)
+    have := np_multiTransferSender env c ctx I (hI hself) h0 hlen hphys (hreach hself)
     simpa [hself] using this
   · simp only [hself, if_false]
     npg
@@ -601,7 +610,7 @@ theorem np_multiTransfer (env : Env) (c : Call) (ctx : Ctx) (I : Accts → Prop)
       have h2 : ¬ (c.args.length < u64 (u64 (u64 (beNat a0) * 3) + 1)) := of_decide_eq_false hmin
       simp only [u64, two64, two63] at *
       omega
-    apply NP.bind_any (np_multiDestLoop env c _ I hI (hP hself) _ _ _ h0 (by omega)); intro _ _
+    apply NP.bind_any (np_multiDestLoop env c _ I (hD hself) (hP hself) _ _ _ h0 (by omega)); intro _ _
     repeat' (first | np_step | (show NP _ _; split))
 
 /-- the wrapped-count guard (F4 class): a token count above a third of the argument count is refused before any loop,
@@ -628,7 +637,8 @@ namespace Esdt
 theorem np_transferOne (env : Env) (c : Call) (l : Bool) (dst tok : Bytes) (n q : Nat) (v : Bool) (ctx : Ctx)
     (hS : AcctVal ctx.accts c.caller) (hne : dst ≠ c.caller)
     (hD : l = true → AcctVal ctx.accts dst)
-    (hK : l = true → ∀ t cur, decToken (ctx.accts.read c.caller (nftKey (esdtKeyPrefix ++ tok) n)) = some t →
+    (hK : l = true → ∀ t cur, ctx.accts.read c.caller (nftKey (esdtKeyPrefix ++ tok) n) ≠ [] →
+      decToken (ctx.accts.read c.caller (nftKey (esdtKeyPrefix ++ tok) n)) = some t → (0 < n → t.md.isSome = true) →
       tokenOf (ctx.accts.read dst (nftKey (esdtKeyPrefix ++ tok) (mdNonce t))) = some cur →
       cur.md.isSome = true → t.md.isSome = true) :
     NP (transferOne env c l dst tok n q v) ctx := by
@@ -636,7 +646,7 @@ theorem np_transferOne (env : Env) (c : Call) (l : Bool) (dst tok : Bytes) (n q 
   npg
   apply NP.bind_of (np_getNFTOnSender _ _ _ _)
   apply Post.mono (spec_getNFTOnSender _ _ _ ctx)
-  intro t c1 ⟨h1, hne1, hdec, _, _⟩
+  intro t c1 ⟨h1, hne1, hdec, hmdn, _⟩
   have hv : t.value.isSome = true := valAt_of_sender (hS.nft tok _) hne1 hdec
   apply NP.bind_deref hv; intro x _
   npg
@@ -649,6 +659,6 @@ theorem np_transferOne (env : Env) (c : Call) (l : Bool) (dst tok : Bytes) (n q 
     refine np_addNFTToDestination env dst _ _ _ _ _ rfl ?_
     intro cur hcur
     rw [h2, h1, Accts.read_write, if_neg (fun ⟨e, _⟩ => hne e.symm)] at hcur
-    exact ⟨(hD rfl).nft tok _ cur hcur, fun hc => hK rfl t cur hdec hcur hc⟩
+    exact ⟨(hD rfl).nft tok _ cur hcur, fun hc => hK rfl t cur hne1 hdec hmdn hcur hc⟩
 
 end Esdt
